@@ -273,6 +273,10 @@ def run(ctx):
     check_simple_items(ctx, f, X, rules, classmap, inl)
     # extensible
     for name, has_attr in (('attr_dn_mrule', True), ('dn_mrule', False)):
+        if FP + name not in f.hir:
+            # (still anchored by name: the grammar comparison P1 says what became of the rule; here the clause is reported as undecided)
+            ctx.fail('P3.shape', name, '', 'the extensible-match parser `%s` does not exist as a function: its semantic action (extensibleMatch [9] slots) could not be located and is not decided' % name)
+            continue
         B = hirq.Body(f, f.hir[FP + name])
         n = 0
         for o in absx.Interp(f, B, inline=inl).run():
